@@ -96,6 +96,17 @@ CLAIMED = {
         ref='DESIGN.md §6 C06', note='The reference evaluator and the Lean model are two independent renderings of lexical scoping; the global statement (all programs) is by '
              'differential execution, the theorems are local laws. First-class macros at run time are outside the model (unsupported).',
         technique='Lean 4 proof (operator-level binding/order/error laws) + differential against model and reference evaluator'),
+    'C07': dict(
+        text='On the real frame heap of the model (parent pointers, several names per frame): findFrame_fuel, find_skip, find_hop / read_hop / '
+             'write_hop (hopping over frames that do not bind x is invisible to the dynamic walk), resolved_read_eq_dynamic and '
+             'resolved_write_eq_dynamic (an annotation whose skipped frames do not bind the name denotes the same cell, for reads and '
+             'assignments), lookupSteps_sound (the pass annotates with the nearest static scope that knows the name, only if defined there), '
+             'announced_stays_dynamic, resolve_symbol_only_annotates, resolve_refuses_only_upfront, double_define_refused. Correspondence and '
+             'search: twin interpreters expand->optimize->resolve->eval vs expand->optimize->eval on generated programs (incl. std macros, eval of '
+             'quoted code), plus the reference evaluator as second opinion.',
+        ref='DESIGN.md §6 C07', note='The global preservation theorem (run-time invariant static scopes = parent chain through every operator) is proved on the prototype calculus only '
+             '(notes/prototypes/lean/Res2.lean); on the full model it is covered by the twin differential. Defines created by run-time eval and then read statically are outside the quantifier.',
+        technique='Lean 4 proof (cell-identity of resolved vs dynamic access on the frame heap; soundness of the annotation) + twin-interpreter differential'),
 }
 
 REASONS_PENDING = 'check under construction in this round (DESIGN.md §13 build order); not a claim of inapplicability'
